@@ -700,13 +700,13 @@ def weak_constants(table):
     fast = {"OrdFirst": _meet([stl[0][4]]), "OrdConfirm": _meet([stl[1][4]]), "OrdSlotSwap": _meet([r[4] for r in slot]),
             "OrdStSwap": _meet([r[4] for r in swaps]), "OrdPayOk": pay_ok, "OrdPayFail": pay_fail, "OrdPayOkW": payw_ok, "OrdPayFailW": payw_fail, "OrdPayFailR4": r4}
     ctrl = sel("helping.rs", "ctrl", "swap") + sel("helping.rs", "ctrl", "cas")
-    hs = sel("helping.rs", "hslot", "swap")
+    hs = sel("helping.rs", "hslot", "swap") + sel("helping.rs", "hslot", "store")
     env = sel("helping.rs", "env", "load") + sel("helping.rs", "env", "store") + sel("helping.rs", "space", "store")
     hl = sel("helping.rs", "ctrl", "load") + sel("helping.rs", "space", "load")
-    if len(ctrl) < 3 or len(hs) != 1 or not env or not hl:
+    if len(ctrl) < 3 or not hs or not env or not hl:
         return (fast, None, _node_constants(sel)), "helping sites not all observed (%d control accesses, %d slot swaps, %d envelope accesses, %d helper loads)" % (len(ctrl), len(hs), len(env), len(hl))
     cords = [r[4] for r in ctrl] + [r[5] for r in ctrl if r[3] == "cas"]
-    helpc = {"OrdCand": _meet([stl[2][4]]), "OrdCtrl": _meet(cords), "OrdHslot": _meet([hs[0][4]]), "OrdEnv": _meet([r[4] for r in env]),
+    helpc = {"OrdCand": _meet([stl[2][4]]), "OrdCtrl": _meet(cords), "OrdHslot": _meet([r[4] for r in hs]), "OrdEnv": _meet([r[4] for r in env]),
              "OrdStSwap": fast["OrdStSwap"], "OrdPayOk": pay_ok, "OrdPayFail": pay_fail, "OrdPayOkW": payw_ok, "OrdPayFailW": payw_fail, "OrdHelpLoad": _meet([r[4] for r in hl])}
     return (fast, helpc, _node_constants(sel)), ""
 
